@@ -73,7 +73,16 @@ func Reach(s string)  {}
 func ExpectPanic()    { expectPanic = true }
 func TrackWrites(on bool) {}
 
+// Observe records a buffer: under gosym its model value is stored with the path witness, natively
+// it is printed, and the check compares the two (validation of the translator).
+func Observe(tag string, b []byte) { fmt.Printf("VREPLAY OBSERVE %s %x\n", tag, b) }
+
 var expectPanic bool
+
+// ExpectExit announces that the code after it must end in os.Exit(code). Under gosym, atExit
+// runs inside the os.Exit stub so that it can assert on the state at exit; natively the process
+// really exits and the check compares the exit status with the announcement.
+func ExpectExit(code int, atExit func()) { fmt.Printf("VREPLAY EXPECT-EXIT %d\n", code) }
 
 func Bytes(n int) []byte {
 	b := make([]byte, n)
